@@ -443,6 +443,12 @@ def run_history(args):
                     kw = dict(kw, weights=np.ones(len(y)))
                 fm.fit(X, y, **kw)
         except Exception as e:  # noqa
+            if explicit_ones and type(e).__name__ == 'OptimizationError':
+                # a grid-search candidate is deliberately warm-started from the previous model (same data): it may converge
+                # where the cold start of a brand-new model diverges.  Recorded, not a failing input (the property compares
+                # warm-started candidates only up to the optimiser's tolerance); user-level fits are never warm-started.
+                cnt('warm-started candidate converged where a brand-new model diverges (not reported)', it['cls'])
+                return
             fails.append(dict(kind='fresh-fit-raised', op=opdesc, step=len(steps), model=j, exc=type(e).__name__,
                               msg=str(e)[:200], property_level=True))
             return
